@@ -4867,8 +4867,17 @@ class Pack:
         base_type = type
         base_obj = obj
         delta_stack = []
+        seen_offsets: set[int] = set()
         while base_type in DELTA_TYPES:
             prev_offset = base_offset
+            if prev_offset is not None:
+                # A crafted pack (with a matching index) can make deltas name
+                # each other as bases; without this the walk never ends.
+                if prev_offset in seen_offsets:
+                    raise ApplyDeltaError(
+                        f"delta chain loops back to the entry at offset {prev_offset}"
+                    )
+                seen_offsets.add(prev_offset)
             if get_ref is None:
                 get_ref = self.get_ref
             assert isinstance(base_obj, tuple), (
